@@ -46,6 +46,13 @@ def gen_scenario(seed, length=30, sessions=("A", "B"), mboxes=("inbox", "b"),
             k = prng.choice(prefill)
             if k:
                 steps.append(("deliver", m, k, prng.random() < 0.5, True))
+                steps.append(("poll",))
+                if prng.random() < 0.6:
+                    # ... of which only a few of the newest are left (sparse sets of large UIDs / numbers)
+                    lo = prng.choice([1, 1, 2])
+                    steps += [("select", sessions[0], m),
+                              ("store", sessions[0], [[lo, k - prng.choice([1, 2, 3])]], "+", ["Deleted"], True, False),
+                              ("expunge", sessions[0])]
         steps.append(("poll",))
     w = {"select": 6, "examine": 2, "append": 8, "deliver": 8, "poll": 5, "store": 12,
          "fetch": 6, "fetchbody": 3, "expunge": 6, "uidexpunge": 3, "copy": 5, "move": 4,
